@@ -28,9 +28,9 @@ Schema == [
                  Q(18, Set(Ref("input"), 1)), Q(19, Ref("voting_procedures")), Q(20, Set(Ref("proposal"), 1)), Q(21, Coin), Q(22, PosUInt)>>),
   input |-> Arr(<<F(H32), F(UIntMax(65535))>>),
   output |-> Alt(<<Arr(<<F(Addr), F(Ref("value")), O(H32)>>),
-                   Map(<<K(0, Addr), K(1, Ref("value")), Q(2, Ref("datum_option")), Q(3, Cbor(Ref("script")))>>)>>),
+                   OutMap(Map(<<K(0, Addr), K(1, Ref("value")), Q(2, Ref("datum_option")), Q(3, Cbor(Ref("script")))>>))>>),
   datum_option |-> ArrV(<< Arr(<<F(Const(0)), F(H32)>>), Arr(<<F(Const(1)), F(Cbor(Ref("plutus_data")))>>) >>),
-  script |-> ArrV(<< Arr(<<F(Const(0)), F(Ref("native_script"))>>), Arr(<<F(Const(1)), F(BytesR(0, 100000))>>), Arr(<<F(Const(2)), F(BytesR(0, 100000))>>), Arr(<<F(Const(3)), F(BytesR(0, 100000))>>) >>),
+  script |-> ArrV(<< Arr(<<F(Const(0)), F(Ref("native_script"))>>), Arr(<<F(Const(1)), F(BytesR(0, 100000))>>), NF(Arr(<<F(Const(2)), F(BytesR(0, 100000))>>), "plutus-v2v3"), NF(Arr(<<F(Const(3)), F(BytesR(0, 100000))>>), "plutus-v2v3") >>),
   script_ref |-> Cbor(Ref("script")),
   drep |-> DRep,
   value |-> Alt(<<Coin, Arr(<<F(Coin), F(TableS(H28, TableS(BytesR(0,32), PosUInt, 1), 1))>>)>>),
@@ -59,7 +59,7 @@ Schema == [
                          Arr(<<F(Const(6))>>) >>),
   witness_set |-> Map(<<Q(0, Set(Ref("vkeywitness"), 1)), Q(1, Set(Ref("native_script"), 1)), Q(2, Set(Ref("bootstrap_witness"), 1)),
                         Q(3, Set(BytesR(0, 100000), 1)), Q(4, SetP(Ref("plutus_data"), 1)), Q(5, Ref("redeemers")),
-                        Q(6, Set(BytesR(0, 100000), 1)), Q(7, Set(BytesR(0, 100000), 1))>>),
+                        Q(6, NF(Set(BytesR(0, 100000), 1), "plutus-v2v3")), Q(7, NF(Set(BytesR(0, 100000), 1), "plutus-v2v3"))>>),
   vkeywitnesses |-> Set(Ref("vkeywitness"), 1),
   bootstrap_witnesses |-> Set(Ref("bootstrap_witness"), 1),
   vkeywitness |-> Arr(<<F(H32), F(BytesR(64,64))>>),
@@ -70,15 +70,15 @@ Schema == [
   constr |-> Alt(<< Tag(121, PList(Ref("plutus_data"))), Tag(122, PList(Ref("plutus_data"))), Tag(123, PList(Ref("plutus_data"))), Tag(124, PList(Ref("plutus_data"))),
                     Tag(125, PList(Ref("plutus_data"))), Tag(126, PList(Ref("plutus_data"))), Tag(127, PList(Ref("plutus_data"))),
                     N("tagrange", 1280, 1400, PList(Ref("plutus_data"))),
-                    Tag(102, Arr(<<F(UInt), F(PList(Ref("plutus_data")))>>)) >>),
-  big_int |-> Alt(<< IntN, Tag(2, BBytes), Tag(3, BBytes) >>),
+                    Constr102(PList(Ref("plutus_data"))) >>),
+  big_int |-> Alt(<< IntN, BigTag(2), BigTag(3) >>),
   ex_units |-> Arr(<<F(UInt), F(UInt)>>),
-  redeemers |-> Alt(<< List(Arr(<<F(UIntMax(5)), F(UInt), F(Ref("plutus_data")), F(Ref("ex_units"))>>), 1),
+  redeemers |-> Alt(<< NF(List(Arr(<<F(UIntMax(5)), F(UInt), F(Ref("plutus_data")), F(Ref("ex_units"))>>), 1), "redeemers-array-form"),
                        Table(Arr(<<F(UIntMax(5)), F(UInt)>>), Arr(<<F(Ref("plutus_data")), F(Ref("ex_units"))>>), 1) >>),
-  metadatum |-> Alt(<< IntN, BytesR(0, 64), TextR(0, 64), List(Ref("metadatum"), 0), Table(Ref("metadatum"), Ref("metadatum"), 0) >>),
+  metadatum |-> Alt(<< MdInt, BytesR(0, 64), TextR(0, 64), List(Ref("metadatum"), 0), Table(Ref("metadatum"), Ref("metadatum"), 0) >>),
   metadata |-> IntMap(Ref("metadatum")),
   auxiliary_data |-> Alt(<< Ref("metadata"),
                             Arr(<<F(Ref("metadata")), F(List(Ref("native_script"), 0))>>),
-                            Tag(259, Map(<<Q(0, Ref("metadata")), Q(1, List(Ref("native_script"), 0)), Q(2, List(BytesR(0, 100000), 0)), Q(3, List(BytesR(0, 100000), 0)), Q(4, List(BytesR(0, 100000), 0))>>)) >>)
+                            Tag(259, Map(<<Q(0, Ref("metadata")), Q(1, List(Ref("native_script"), 0)), Q(2, List(BytesR(0, 100000), 0)), Q(3, NF(List(BytesR(0, 100000), 0), "plutus-v2v3")), Q(4, NF(List(BytesR(0, 100000), 0), "plutus-v2v3"))>>)) >>)
 ]
 ====
